@@ -21,6 +21,7 @@ deriving DecidableEq, Repr, Inhabited
 inductive Err where
   | valueError      -- ValueError raised by the Python code
   | typeError       -- `None <= 0` in SchedulePattern.__init__
+  | indexError      -- from `AffineTransform.from_affine_map` (dimension position >= num_dims)
 deriving DecidableEq, Repr
 
 structure Pattern where
@@ -60,12 +61,36 @@ def select {α} : List Bool → List α → List α
   | m :: ms, a :: as => if m then a :: select ms as else select ms as
   | _, _ => []
 
-/-- `AccessPattern.canonicalize`: "remove dimensions with bound 1" -/
-def Pattern.canonicalize (p : Pattern) : Pattern :=
-  let mask := p.bounds.map keep
+/-- `canonicalize` for an arbitrary "keep this dimension" test -/
+def Pattern.canonicalizeWith (k : Bound → Bool) (p : Pattern) : Pattern :=
+  let mask := p.bounds.map k
   { cls := p.cls
-    bounds := p.bounds.filter keep
-    t := { nd := (p.bounds.filter keep).length, A := p.t.A.map (select mask), b := p.t.b } }
+    bounds := p.bounds.filter k
+    t := { nd := (p.bounds.filter k).length, A := p.t.A.map (select mask), b := p.t.b } }
+
+/-- `AccessPattern.canonicalize` AS IT IS: "remove dimensions with bound 1" with the test
+`bound is None or bound > 1` -/
+def Pattern.canonicalize (p : Pattern) : Pattern := p.canonicalizeWith keep
+
+/-- the test of fix FC19a: `bound is None or bound != 1` -/
+def keepFixed (b : Bound) : Bool :=
+  match b with
+  | none => true
+  | some n => decide (n ≠ 1)
+
+/-- `AccessPattern.canonicalize` with fix FC19a -/
+def Pattern.canonicalizeFixed (p : Pattern) : Pattern := p.canonicalizeWith keepFixed
+
+/-- the constructors called with an `AffineMap(n, 0, rs)`: `SchedulePattern` checks its bounds first,
+`AccessPattern.__init__` converts the map (`from_affine_map` may raise) and then compares lengths. -/
+def constructFromMap (cls : Cls) (bounds : List Bound) (n : Nat) (rs : List AExpr) : Except Err Pattern :=
+  match (if cls = .schedule then schedCheck bounds else .ok ()) with
+  | .error e => .error e
+  | .ok () =>
+    match AT.fromMap n rs with
+    | .error .valueError => .error .valueError
+    | .error .indexError => .error .indexError
+    | .ok t => construct cls bounds t
 
 /-- `AccessPattern.inner_dims(dim)`: `bounds[-dim:]`, `A[:, -dim:]` (a `dim` beyond the rank keeps
 everything, as Python slicing does). -/
